@@ -103,27 +103,28 @@ def classify(items, exp, got):
             if len(emiss) != len(gextra):
                 sig = "markup:attribute-count"
             elif emiss:
-                a, b = emiss[0], gextra[0]
-                for x in emiss:
-                    for y in gextra:
-                        if x[0] == y[0] and (x[1], x[2]) == (y[1], y[2]):
-                            a, b = x, y
-                if a[0] != b[0]:
-                    sig = "markup:attribute-name"
-                elif (a[1], a[2]) != (b[1], b[2]):
-                    if list(a[0]) == CHARACTER:
+                def pairs(pred):
+                    return [(x, y) for x in emiss for y in gextra if x[0] == y[0] and pred(x, y)]
+                rng = pairs(lambda x, y: x[4] == y[4] and (x[1], x[2]) != (y[1], y[2]))
+                prp = pairs(lambda x, y: (x[1], x[2]) == (y[1], y[2]) and x[4] != y[4])
+                tfa = pairs(lambda x, y: (x[1], x[2]) == (y[1], y[2]) and x[4] == y[4] and x[3] != y[3])
+                if rng:
+                    if list(rng[0][0][0]) == CHARACTER:
                         sig = "markup:character-attribute-range"
                     elif edge:
                         sig = "markup:range-after-trim"
                     else:
                         sig = "markup:attribute-range"
-                elif a[4] != b[4]:
+                elif prp:
                     sig = "markup:property-value"
-                    for (n1, v1), (n2, v2) in zip(a[4], b[4]):
-                        if v1 != v2 and '"dec"' in v1:
-                            sig = "markup:decimal-property-value"
-                elif a[3] != b[3]:
+                    for x, y in prp:
+                        for (n1, v1), (n2, v2) in zip(x[4], y[4]):
+                            if v1 != v2 and '"dec"' in v1:
+                                sig = "markup:decimal-property-value"
+                elif tfa:
                     sig = "markup:text-for-attribute"
+                elif not [1 for x in emiss for y in gextra if x[0] == y[0]]:
+                    sig = "markup:attribute-name"
         if best is None or sig != "markup:text":
             best = sig
         if sig != "markup:text":
